@@ -172,6 +172,12 @@ func (s *mainQueueScheduler) forward(sender string, seq uint64) {
 
 		s.remove(tx, seqHeap)
 	}
+
+	// The sender's first pending transaction may have become schedulable
+	// now that the sender's sequence number has advanced.
+	if first, ok := seqHeap.peek(); ok && !isPendingSchedule(first) && s.isSchedulable(first, seqHeap) {
+		s.maxHeap.push(first)
+	}
 }
 
 // handleTxUsed removes the transaction with the given hash and forwards
